@@ -30,8 +30,8 @@ def main(tier, which='C07'):
                                             ':fixed-relative-in-conflict' if fr and len(c['cons']) >= 2 else ''),
                      '%s: flags=%d nodes(w,h,x,y)=%s edges=%s cons=%s' % (why, c['flags'], c['nodes'], c['edges'], c['cons']), c)
     nontriv = reported = 0
-    for m in re.finditer(r'<<"STAT", "layout", (\d+), (\d+), (\d+)>>', r.out):
-        nontriv += int(m.group(2)); reported += int(m.group(3))
+    for v in V.stat(r.out, 'layout'):
+        nontriv += v[0]; reported += v[1]
     for inv, st in V.violating_states(r):
         for b in st.get('bad', []):
             i, t = b[0], b[1]
